@@ -51,13 +51,13 @@ CLAIMED = {
          "T", "DESIGN.md §5-C13",
          "Cauchy, Pareto, Weibull, Gumbel, Frechet, Triangular (f32) x grid of E: every one of the 2^24 first-word patterns is executed; each execution must consume exactly one word (else the case is recorded not applicable); the exact induced law must be within 2^-24 (1.5 + 8 sup|x f(x)|) of the documented CDF and every output in the support.",
          "Complete for the stated space. The f32 conversions use the top 24 bits of a next_u32 served from the top of the script word."),
- "C14": ("model_checking", "explicit-state exploration of all call histories up to a depth over {A, clone, equal rebuild, sibling, other family} x two cursors on one word sequence, executed on the real objects with a differential oracle between histories",
-         "H", "DESIGN.md §5-C14",
+ "C14": ("model_checking", "explicit-state exploration of all call histories up to a depth over {A, clone, equal rebuild, sibling, other family} x two cursors on one word sequence, executed on the real objects with a differential oracle between histories; plus enumeration of 4 orders of first use over all cases in fresh processes (process-wide state)",
+         "H", "DESIGN.md §5-C14, §11.17",
          "For a spread of cases covering every family and representation variant (all cases in the thorough tier): all 10^4 (quick) call sequences; a table keyed by (parameter class, cursor before) must receive the same (result bits, cursor after) from every history; Debug/== unchanged after sampling; values that compare equal (a case and its sibling of the same family) sample identically; sample_iter agrees with repeated sample, also when sample / sample_iter are written with method syntax on 41 concrete types (where an inherent method would shadow the trait's).",
-         "Single-threaded histories (the crate has no synchronisation to schedule)."),
+         "Single-threaded histories (the crate has no synchronisation to schedule). State set once per process is covered only through the 4 first-use orders of the first-touch sub-check (96 samples per case)."),
  "C15": ("exploration", "enumeration of every serde-enabled type x representation variant: JSON and value-tree round trips, equality, and identical sampling on base streams and all single-word deviations at the first requests",
          "F+D", "DESIGN.md §5-C15",
-         "Compile-time list of the types implementing Serialize+Deserialize under feature serde (Zipf, Zeta, Dirichlet do not), parameter sets for every internal enum variant (Gamma Large/One/Small, Beta BB/BC x switched, Binomial Binv/Btpe/Poisson/Constant x flipped, Poisson Knuth/Rejection, ...), weighted indices of several lengths incl. float trees after update histories.",
+         "Compile-time list of the types implementing Serialize+Deserialize under feature serde (Zipf, Zeta, Dirichlet do not), parameter grids (Binomial 15 n x p = k/100 and j/(n+1); every Hypergeometric with N <= 16; Poisson / Geometric 121 points; Gamma / Beta / FisherF 25 x 7 shapes) and hand-picked sets for every internal enum variant (Gamma Large/One/Small, Beta BB/BC x switched, Binomial Binv/Btpe/Poisson/Constant x flipped, Poisson Knuth/Rejection, ...), weighted indices of several lengths incl. float trees after update histories.",
          "Values holding a non-finite float are not covered (JSON cannot carry infinities)."),
  "C05": ("fault_enumeration", "deviation-bounded exhaustive enumeration of RNG answers with a per-call word cap and wall-clock watchdog on the real samplers",
          "D+T", "DESIGN.md §3.2, §5-C05",
